@@ -129,6 +129,30 @@ impl Ctx {
                         }
                         _ => results.push(("sign:cleartext".into(), false)),
                     }
+                    // the several-signers interface: this key twice, with two digests; verify (this key) and verify_many (all)
+                    let r = guarded(|| {
+                        use pgp::packet::{SignatureConfig, SignatureType, Subpacket, SubpacketData};
+                        use pgp::types::{KeyDetails, Timestamp};
+                        CleartextSignedMessage::new_many(&t, |st| {
+                            let mut out = Vec::new();
+                            for (i, h) in [hash, if hash == pgp::crypto::hash::HashAlgorithm::Sha512 { pgp::crypto::hash::HashAlgorithm::Sha256 } else { pgp::crypto::hash::HashAlgorithm::Sha512 }].into_iter().enumerate() {
+                                let mut c = SignatureConfig::from_key(Rng::new(40 + i as u64), &key.primary_key, SignatureType::Text)?;
+                                if key.version() != pgp::types::KeyVersion::V6 { c.hash_alg = h; }
+                                c.hashed_subpackets = vec![Subpacket::regular(SubpacketData::SignatureCreationTime(Timestamp::from_secs(1_700_000_000)))?, Subpacket::regular(SubpacketData::IssuerFingerprint(key.primary_key.fingerprint()))?];
+                                out.push(c.sign(&key.primary_key, &Password::empty(), st.as_bytes())?);
+                            }
+                            Ok(out)
+                        }).ok()
+                    });
+                    match r {
+                        Ok(Some(m)) => {
+                            let all = |m: &CleartextSignedMessage| m.verify_many(|_i, sig, text| sig.verify(&pk, text).map(|_| ())).is_ok();
+                            results.push(("cleartext-many->verify".into(), m.verify(&pk).is_ok() && all(&m)));
+                            let re = m.to_armored_string(ArmorOptions::default()).ok().and_then(|a| CleartextSignedMessage::from_string(&a).ok());
+                            results.push(("cleartext-many->armor->verify".into(), re.map(|(m2, _)| m2.verify(&pk).is_ok() && all(&m2) && m2.signatures().len() == 2).unwrap_or(false)));
+                        }
+                        _ => results.push(("sign:cleartext-many".into(), false)),
+                    }
                 }
             }
         }
